@@ -177,7 +177,7 @@ PROPS["C04"] = dict(
     theorems="Properties/C04.v",
     proof_files=["Bus/BusModel.v", "Bus/BusRun.v", "Bus/BusInv.v", "Properties/C04.v"],
     suites=[dict(name="bus04", mod="core", family="bus04", corr="Corr.BusOracle", check="check_bus", shard=25), dict(name="buscon", mod="core", family="buscon", corr="Corr.BusOracle", check="check_bus", shard=25), dict(name="oncecancel", mod="core", family="oncecancel", corr="Corr.CorrOnce", check="check04x", shard=50)],
-    level_text="Proved in Coq for EVERY schedule of every program: the number of entries into a Once registration over the whole run is <= 1, and an entry implies its flag was claimed (invariant: entries + deliveries in flight <= claimed flag, preserved by every micro-step incl. panics and async spawns); the claim is reached only after the filter accepted and with a live context, so filtered-out or already-cancelled publishes do not consume it. 'Exactly once when eligible' (liveness) is decided on observed runs by the oracle. Tied to the code by controller-driven runs with 1-3 concurrent publishers, sync/async Once handlers, filters, cancelled contexts.",
+    level_text="Proved in Coq for EVERY schedule of every program: the number of entries into a Once registration over the whole run is <= 1, and an entry implies its flag was claimed (invariant: entries + deliveries in flight <= claimed flag, preserved by every micro-step incl. panics and async spawns); the claim is reached only after the filter accepted and with a live context, so filtered-out or already-cancelled publishes do not consume it. 'Exactly once when eligible' (liveness) is decided on observed runs by the oracle. Tied to the code by controller-driven runs with 1-3 concurrent publishers, sync/async Once handlers, filters, cancelled contexts. The asynchronous claim/cancel hole (context cancelled after PublishContext returned and before the delivery goroutine of an Async Once handler starts - the usual defer cancel()) is run on one processor against the model on exactly that schedule (suite oncecancel; the defect it showed was repaired by a fix: commit); the synchronous form of the hole (a preemption between two adjacent statements) is REFUTED on the model with a witness schedule and cannot be forced on the real code.",
     level_note='Trusted: Coq kernel + vm_compute; the hand-written small-step model of event_bus.go / persistEvent (flat registry; sync.Mutex, RWMutex, WaitGroup, atomic CAS, goroutine creation and recover are modelled as atomic micro-steps); the controller harness (parks goroutines at user-code callbacks, reads goroutine states from runtime.Stack) and the replay of its log on the model (Bus/BusRun.v); the oracle Corr/BusOracle.v; interleavings strictly inside bus code are not forced by the controller.',
     rule='cases = seeded random programs (threads, handler/filter/hook bodies that call back into the bus, options) run on the real bus under the controller with a seeded random schedule; every run is replayed on the Coq model along the controller log and judged by the oracle; directed witness programs run first; C04: 70% Once handlers, half the publishes on cancellable contexts, 1-3 publishers; directed: cancelled-then-eligible, filtered-then-eligible; non-trivial = every case; distinct = distinct program+schedule',
 )
